@@ -47,6 +47,7 @@ class Contract:
     cover: bool = True
     timeout_ms: int | None = None
     verify_paths_limit: int = 4000
+    assigns: dict = dataclasses.field(default_factory=dict)     # "self.f" -> spec expr: field holds exactly that value (reference) on return
     mode: str = "A"                 # A functional, B object invariant, C effect discipline
     options: dict = dataclasses.field(default_factory=dict)
 
@@ -113,6 +114,8 @@ class ClassSpec:
     ghost_fields: dict = dataclasses.field(default_factory=dict)
     bases: list = dataclasses.field(default_factory=list)
     init: dict = dataclasses.field(default_factory=dict)       # (ghost) field -> spec expr at construction
+    stable: list = dataclasses.field(default_factory=list)     # fields only the contracted methods change
+    mutators: list = dataclasses.field(default_factory=list)   # method names that change stable fields
 
 
 def class_spec(**kw):
